@@ -84,6 +84,14 @@ class HandoverSystem:
         sim.settle()
         N[self.sid["clk"]] = 0
         sim.settle()
+        # requests return to idle after the edge (only sampled by the clocked processes; all observations are registered)
+        N[self.sid["send_req"]] = 0
+        N[self.sid["recv_rdy"]] = 0
+        for n in self.extra:
+            N[self.sid[n]] = 0
+        if self.mb:
+            N[self.sid["data"]] = (0, 0)
+        sim.settle()
         if sim.A:
             a = sim.A[0]
             del sim.A[:]
@@ -111,6 +119,25 @@ class HandoverSystem:
         return self.mon.step(*obs)
 
     # goals / strategies for liveness
+    def nothing_pending(self):
+        return self.mon.pending is None
+
+    def cycle_goals(self):
+        return [self.delivered_now]
+
+    def idle_choice(self):
+        return (0, 0, 0)
+
+    def idle_exact(self):
+        """after one more idle clock from a state that recurs under idle: observations exact; (kind, text) or None"""
+        pend = self.mon.pending is not None
+        pc, cs = self.get("p_clear"), self.get("c_set")
+        if pc != int(not pend):
+            return ("idle-producer", f"environment idle for good, event outstanding={pend}: producer observes is_clear()={pc} forever")
+        if cs != int(pend):
+            return ("idle-consumer", f"environment idle for good, event outstanding={pend}: consumer observes is_set()={cs} forever")
+        return None
+
     def delivered_now(self):
         if self.idiom:
             return self.get("got") == 1 or self.get("dropped") == 1
@@ -135,6 +162,112 @@ class HandoverSystem:
         return [base + e for e in out]
 
 
+class PairSystem:
+    """two hand-over objects sharing the producer context and the consumer context; each with its own requests and its
+    own monitor.  choice = (send0, data0, rdy0, send1, data1, rdy1)"""
+
+    coro = False
+
+    def __init__(self, sim, cfg):
+        self.sim = sim
+        self.cfg = cfg
+        self.members = W.pair_members(cfg)
+        self.mons = [HandoverMonitor(), HandoverMonitor()]
+        p = sim.ports
+        self.sid = {n: p[n][0] for n in p}
+        self.ty = {n: p[n][1] for n in p}
+        per = []
+        for what, _, _ in self.members:
+            vals = (0, 1) if what == "mailbox" else (0,)
+            per.append([(0, 0, r) for r in (0, 1)] + [(1, v, r) for v in vals for r in (0, 1)])
+        self.menu = [a + b for a in per[0] for b in per[1]]
+        self.inputs = [n for n in p if p[n][2] == "in" and n != "clk"]
+        for n in self.inputs + ["clk"]:
+            sim.N[self.sid[n]] = 0
+        sim.settle()
+        self.outs = [n for n in sorted(p) if p[n][2] != "in"]
+
+    def get(self, name):
+        return from_raw(self.ty[name], self.sim.S[self.sid[name]])
+
+    def snapshot(self):
+        return (self.sim.snapshot(), self.mons[0].pending, self.mons[1].pending)
+
+    def restore(self, s):
+        self.sim.restore(s[0])
+        self.mons[0].pending, self.mons[1].pending = s[1], s[2]
+
+    def choices(self):
+        return self.menu
+
+    def observe(self):
+        S = self.sim.S
+        return tuple(S[self.sid[n]] for n in self.outs)
+
+    def apply(self, ch):
+        sim = self.sim
+        N = sim.N
+        for i, (what, _, _) in enumerate(self.members):
+            send, data, rdy = ch[3 * i:3 * i + 3]
+            N[self.sid[f"send_req{i}"]] = send
+            N[self.sid[f"recv_rdy{i}"]] = rdy
+            if what == "mailbox":
+                N[self.sid[f"data{i}"]] = data
+        sim.settle()
+        N[self.sid["clk"]] = 1
+        sim.settle()
+        N[self.sid["clk"]] = 0
+        sim.settle()
+        for n in self.inputs:
+            N[self.sid[n]] = 0
+        sim.settle()
+        if sim.A:
+            a = sim.A[0]
+            del sim.A[:]
+            return f"emitted VHDL assertion fired: {a!r}"
+        g = self.get
+        for i, (what, _, _) in enumerate(self.members):
+            mb = what == "mailbox"
+            obs = (g(f"p_clear{i}"), g(f"p_set{i}"), g(f"issued{i}"), g(f"sent_data{i}") if mb else None,
+                   g(f"c_set{i}"), g(f"c_clear{i}"), g(f"consumed{i}"), g(f"got_data{i}") if mb else None)
+            if None in obs[0:3] + obs[4:7]:
+                return f"object {i} ({what}): undefined observation {obs}: is_set()/is_clear() read an undriven signal"
+            msg = self.mons[i].step(*obs)
+            if msg is not None:
+                return f"object {i} ({what}, second object of its class shares both contexts with object {1 - i}): {msg}"
+        return None
+
+    @property
+    def mon(self):  # statistics only
+        m = HandoverMonitor()
+        m.issued_n = self.mons[0].issued_n + self.mons[1].issued_n
+        m.delivered_n = self.mons[0].delivered_n + self.mons[1].delivered_n
+        m.ineffective_n = 1  # not applicable (gated producers)
+        return m
+
+    def nothing_pending(self):
+        return self.mons[0].pending is None and self.mons[1].pending is None
+
+    def cycle_goals(self):
+        return [lambda: self.get("consumed0") == 1, lambda: self.get("consumed1") == 1]
+
+    def strategies(self, send):
+        return [(send, 1 if send else 0, 1) * 2]
+
+    def idle_choice(self):
+        return (0, 0, 0) * 2
+
+    def idle_exact(self):
+        for i in (0, 1):
+            pend = self.mons[i].pending is not None
+            pc, cs = self.get(f"p_clear{i}"), self.get(f"c_set{i}")
+            if pc != int(not pend):
+                return ("idle-producer", f"object {i}: environment idle for good, event outstanding={pend}: producer observes is_clear()={pc} forever")
+            if cs != int(pend):
+                return ("idle-consumer", f"object {i}: environment idle for good, event outstanding={pend}: consumer observes is_set()={cs} forever")
+        return None
+
+
 def build(cfg):
     res, _ = compile_source(W.render(cfg))
     if not res.ok:
@@ -145,7 +278,7 @@ def build(cfg):
         return "static", f"emitted VHDL does not parse: {e}"
     if d.multi_driven:
         return "static", f"multiply driven signals in the emitted design: {d.multi_driven}"
-    return "ok", HandoverSystem(d.sim(), cfg)
+    return "ok", (PairSystem if W.is_pair(cfg) else HandoverSystem)(d.sim(), cfg)
 
 
 SEND_ALL = (1, 1, 1)   # producer wants to send (payload 1), consumer willing
@@ -157,7 +290,7 @@ def liveness(system, space, out):
     states = list(space.states)
     # L1: consumer willing, producer silent -> nothing stays outstanding
     for strat in system.strategies(0):
-        bad, steps = eventually(system, states, lambda s: strat, lambda s: s.mon.pending is None)
+        bad, steps = eventually(system, states, lambda s: strat, lambda s: s.nothing_pending())
         out["liveness_steps"] += steps
         if bad is not None:
             s, msg = bad
@@ -166,16 +299,17 @@ def liveness(system, space, out):
                     "but the event is never delivered (lost / deadlock)")
     # L2: both active for good -> a delivery happens again and again (no deadlock of the whole cycle)
     for strat in system.strategies(1):
-        bad, steps = eventually(system, states, lambda s: strat, lambda s: s.delivered_now())
-        out["liveness_steps"] += steps
-        if bad is not None:
-            s, msg = bad
-            return ("cycle", space.trace_to(s) + ["strategy", strat], msg or
-                    f"producer wants to send and consumer is willing every clock (environment {strat} for good), "
-                    "but no further event is ever delivered (deadlock)")
+        for goal in system.cycle_goals():
+            bad, steps = eventually(system, states, lambda s: strat, lambda s: goal())
+            out["liveness_steps"] += steps
+            if bad is not None:
+                s, msg = bad
+                return ("cycle", space.trace_to(s) + ["strategy", strat], msg or
+                        f"producer wants to send and consumer is willing every clock (environment {strat} for good), "
+                        "but no further event is ever delivered (deadlock)")
     # L3: idle for good -> observations exact (plain-process wrappers only: they expose the observations)
     if not system.coro:
-        IDLE = (0, 0, 0)
+        IDLE = system.idle_choice()
         rec, steps, viol = recurrent_states(system, states, lambda s: IDLE)
         out["liveness_steps"] += steps
         if viol is not None:
@@ -187,14 +321,9 @@ def liveness(system, space, out):
             out["liveness_steps"] += 1
             if msg is not None:
                 return ("idle", space.trace_to(s) + [IDLE], msg)
-            pend = system.mon.pending is not None
-            pc, cs = system.get("p_clear"), system.get("c_set")
-            if pc != int(not pend):
-                return ("idle-producer", space.trace_to(s), f"environment idle for good, event outstanding={pend}: "
-                        f"producer observes is_clear()={pc} forever")
-            if cs != int(pend):
-                return ("idle-consumer", space.trace_to(s), f"environment idle for good, event outstanding={pend}: "
-                        f"consumer observes is_set()={cs} forever")
+            v = system.idle_exact()
+            if v is not None:
+                return (v[0], space.trace_to(s), v[1])
     return None
 
 
@@ -253,23 +382,30 @@ def replay_config(cfg, kind, trace):
         return None
     if kind in ("deliver", "cycle"):
         ch = strat if strat is not None else (RECV_ONLY if kind == "deliver" else SEND_ALL)
-        goal = (lambda: system.mon.pending is None) if kind == "deliver" else system.delivered_now
-        seen = set()
-        s = system.snapshot()
-        while s not in seen:
-            if goal():
-                return None
-            seen.add(s)
-            msg = system.apply(ch)
-            if msg is not None:
-                return msg
-            s = system.snapshot()
-        return f"{kind}: the system cycles through {len(seen)} state(s) without reaching the goal"
+        goals = [system.nothing_pending] if kind == "deliver" else system.cycle_goals()
+        start = system.snapshot()
+        for goal in goals:
+            system.restore(start)
+            seen = set()
+            s = start
+            reached = False
+            while s not in seen:
+                if goal():
+                    reached = True
+                    break
+                seen.add(s)
+                msg = system.apply(ch)
+                if msg is not None:
+                    return msg
+                s = system.snapshot()
+            if not reached:
+                return f"{kind}: the system cycles through {len(seen)} state(s) without reaching the goal"
+        return None
     if kind in ("idle-producer", "idle-consumer"):
         start = system.snapshot()
         s = None
         for _ in range(10_000):
-            msg = system.apply(IDLE)
+            msg = system.apply(system.idle_choice())
             if msg is not None:
                 return msg
             s = system.snapshot()
@@ -277,12 +413,8 @@ def replay_config(cfg, kind, trace):
                 break
         if s != start:
             return None
-        pend = system.mon.pending is not None
-        pc, cs = system.get("p_clear"), system.get("c_set")
-        if kind == "idle-producer" and pc != int(not pend):
-            return f"idle for good (state recurs), outstanding={pend}, producer is_clear()={pc}"
-        if kind == "idle-consumer" and cs != int(pend):
-            return f"idle for good (state recurs), outstanding={pend}, consumer is_set()={cs}"
+        v = system.idle_exact()
+        return v[1] if v is not None else None
     return None
 
 
